@@ -388,7 +388,39 @@ variable (ef : Nat)
 
 def parseExpr0 : FP Expr := liftP (Parser.parseExpr pf ef 0)
 
-/-- `parseQuotedExpr(str)`: a new lexer and a new parser; trailing tokens are drained.  An
+mutual
+  /-- `setPos(node, pos)`: the node and everything below it get the one position `pos` -/
+  def reposition (p : Nat) : Expr → Expr
+    | .null _ => .null p
+    | .bool _ b => .bool p b
+    | .int _ v => .int p v
+    | .float _ f => .float p f
+    | .str _ q v => .str p q v
+    | .global _ n => .global p n
+    | .func _ n args => .func p n (repositionList p args)
+    | .list _ items => .list p (repositionList p items)
+    | .map _ items => .map p (repositionMap p items)
+    | .dataRef _ k acc => .dataRef p k (repositionAcc p acc)
+    | .not _ a => .not p (reposition p a)
+    | .neg _ a => .neg p (reposition p a)
+    | .bin op _ a b => .bin op p (reposition p a) (reposition p b)
+    | .tern _ c a b => .tern p (reposition p c) (reposition p a) (reposition p b)
+  def repositionList (p : Nat) : ExprList → ExprList
+    | .nil => .nil
+    | .cons e r => .cons (reposition p e) (repositionList p r)
+  def repositionMap (p : Nat) : MapItems → MapItems
+    | .nil => .nil
+    | .cons k e r => .cons k (reposition p e) (repositionMap p r)
+  def repositionAcc (p : Nat) : AccessList → AccessList
+    | .nil => .nil
+    | .cons (.key _ ns k) r => .cons (.key p ns k) (repositionAcc p r)
+    | .cons (.index _ ns i) r => .cons (.index p ns i) (repositionAcc p r)
+    | .cons (.expr _ ns e) r => .cons (.expr p ns (reposition p e)) (repositionAcc p r)
+end
+
+/-- `parseQuotedExpr(str)`: a new lexer and a new parser; trailing tokens are drained.  The
+    nested parser positions its nodes within `str`; the tree is moved (`setPos`) to the position
+    of the enclosing parser's current token — the one `errorf` would report (/repo 4a8a189).  An
     error of the nested parser is re-raised by `t.errorf` at the CURRENT token position of the
     enclosing parser (the deferred recover of parseQuotedExpr); a runtime panic stays a panic. -/
 def parseQuotedExpr (str : Bytes) : FP Expr := fun st =>
@@ -397,7 +429,10 @@ def parseQuotedExpr (str : Bytes) : FP Expr := fun st =>
   | .fuelOut => .error .fuelOut
   | .items is =>
     match (Parser.parseExpr pf (Parser.fuelFor is.length) 0).run (Parser.initState is) with
-    | .ok (e, _) => .ok (e, st)
+    | .ok (e, _) =>
+      match Parser.errPos st.p with
+      | .ok p => .ok (reposition p e, st)
+      | .error _ => .error .panic      -- `t.token[t.peekCount-1]` out of range
     | .error (.err _) => (errorf : FP Expr) st
     | .error .panic => .error .panic
     | .error .fuelOut => .error .fuelOut
